@@ -2,11 +2,15 @@
 use crate::util::Ctx;
 
 pub mod real;
+pub mod c12;
 
-pub fn run(ctx: &Ctx) -> bool {
+pub fn run(ctx: &mut Ctx) -> bool {
     match ctx.id.as_str() {
+        "C12" => {
+            ctx.rule = c12::RULE.into();
+            c12::run(ctx)
+        }
         _ => return false,
     }
-    #[allow(unreachable_code)]
     true
 }
